@@ -156,7 +156,7 @@ func checkWrkchainFees(ctx sdk.Context, tx sdk.FeeTx, wck WrkchainKeeper) error 
 			m := msg.(*types.MsgPurchaseWrkChainStateStorage)
 			numSlots := m.Number
 			feePerSlot := wck.GetPurchaseStorageFeeAsCoin(ctx)
-			totalForSlotsAmt := feePerSlot.Amount.Mul(sdk.NewInt(int64(numSlots)))
+			totalForSlotsAmt := feePerSlot.Amount.Mul(sdk.NewIntFromUint64(numSlots))
 			totalForSlotsCoin := sdk.NewCoin(feePerSlot.Denom, totalForSlotsAmt)
 			expectedFees = expectedFees.Add(totalForSlotsCoin)
 			numMsgs = numMsgs + 1
